@@ -250,9 +250,16 @@ class CSSPageRule(cssrule.CSSRuleRules):
         # new rules until parse done
         cssRules = []
 
+        nesting = 0
         for token in g:
+            if token[0] == 'FUNCTION' or (token[0] == 'CHAR' and token[1] in '{[('):
+                nesting += 1
+            elif token[0] == 'CHAR' and token[1] in '}])' and nesting:
+                nesting -= 1
+
             if (
                 token[0] == 'ATKEYWORD'
+                and not nesting  # (inside some other block it is part of that)
                 and self._normalize(token[1]) in MarginRule.margins
             ):
                 # MarginRule
